@@ -42,8 +42,16 @@ class C02(Prop):
             f = lang.with_near_twin(rng, f)
         n = rng.choice([1, 2, 3, 4, 5, 6, 8, 10, 13, 20, 40]) if rng.random() < 0.7 else rng.randint(1, 40)
         names = lang.variables(f) or [c.vars[0]]
-        return {'formula': f, 'data': lang.gen_trace(rng, names, n),
+        case = {'formula': f, 'data': lang.gen_trace(rng, names, n),
                 'online_kind': rng.choice(['dt', 'dt', 'dt_on'])}
+        if rng.random() < 0.12:
+            # an interface-aware semantics with a random io assignment on both monitors; small-integer data, so that
+            # values sit on the thresholds of strict and non-strict comparisons
+            from rtverif.props.c06 import SEMS
+            case['ia'] = [rng.choice(SEMS[1:]), dict((k, rng.choice(['input', 'output'])) for k in names)]
+            case['online_kind'] = 'dt'
+            case['data'] = dict((k, [rng.choice([0.0, 1.0, 2.0, 3.0, -1.0, 0.5, 1.5]) for _ in range(n)]) for k in names)
+        return case
 
     def classify(self, case, mech, detail):
         return None
@@ -54,8 +62,15 @@ class C02(Prop):
         names = sorted(data)
         n = len(data[names[0]])
         text = lang.to_text(f)
+        sd = None
         try:
-            exp = ref.evaluate(f, data, n)
+            if case.get('ia'):
+                from rtverif.props.c06 import hook_discrete
+                sd = {'semantics': case['ia'][0], 'io': case['ia'][1]}
+                exp = ref.evaluate(f, data, n, pred_hook=hook_discrete(case['ia'][0], case['ia'][1]))
+                v.info['class:interface-aware'] = 1
+            else:
+                exp = ref.evaluate(f, data, n)
         except ref.Undefined:
             v.skip = 'reference undefined (domain error)'
             return v
@@ -66,14 +81,14 @@ class C02(Prop):
         for o in lang.ops_of(f):
             v.info['op:' + o] = 1
         try:
-            off = drive.values(drive.dt_offline(text, names, data, n))
+            off = drive.values(drive.dt_offline(text, names, data, n, sd=sd))
         except Exception as e:
             v.skip = 'offline comparator raised %s' % type(e).__name__
             return v
         # NaN positions of the offline result are don't-care as well
         cmp_exp = [o if (e == e) else e for o, e in zip(off, exp)]
         try:
-            on = drive.dt_online(text, names, data, n, kind=case.get('online_kind', 'dt'))
+            on = drive.dt_online(text, names, data, n, kind=case.get('online_kind', 'dt'), sd=sd)
         except Exception as e:
             v.bad('raises:' + type(e).__name__, '%s: online update raised %s: %s' % (text, type(e).__name__, e),
                   self.classify(case, 'raises', type(e).__name__))
@@ -87,7 +102,7 @@ class C02(Prop):
         # prefix evaluation: offline on w[0..k] at k (function of the samples fed so far)
         for k in sorted(set([0, n // 2, n - 1])):
             try:
-                offk = drive.values(drive.dt_offline(text, names, data, k + 1))
+                offk = drive.values(drive.dt_offline(text, names, data, k + 1, sd=sd))
             except Exception as e:
                 continue
             expk = ref.evaluate(f, data, k + 1)
